@@ -31,6 +31,10 @@ def obs_program(params):
     scripts = {int(h): {int(k): v for k, v in d.items()} for h, d in params.get("scripts", {}).items()}
     fail_start = {int(k): v for k, v in params.get("fail_start", {}).items()}
     fail_ctor = {int(k): v for k, v in params.get("fail_ctor", {}).items()}
+    # extra line-level yield points (sys.monitoring), e.g. ["dispatch_events"]: a thread switch between the dispatcher's
+    # "still registered?" test and the call of the handler is only possible if those two lines are yield points
+    if params.get("line_yields"):
+        detsched.enable_line_yields([getattr(api.BaseObserver, n) for n in params["line_yields"]])
     em_asc = params.get("em_order", "asc") == "asc"
     h_asc = params.get("h_order", "asc") == "asc"
     watches_used = sorted({op[-1] for ops in list(threads.values()) + [o for d in scripts.values() for o in d.values()]
